@@ -121,8 +121,13 @@ fn run<const K: usize>(case: u64, rng: &mut Rng, ev: &mut Ev) {
     }
 
     let mut h = f.clone();
-    if let Err(pm) = lib(case, "compose::<false,false>", || h.compose::<false, false>(&g)) {
+    // the VERBOSE variant only adds a (hidden) progress bar; it must build the same tree
+    let verbose = rng.chance(0.1);
+    if let Err(pm) = lib(case, "compose::<false,_>", || if verbose { h.compose::<false, true>(&g) } else { h.compose::<false, false>(&g) }) {
         fail!("c02:compose:panic", pm);
+    }
+    if verbose {
+        ev.inc("verbose_variant_cases");
     }
     let hs = snap(&h);
     let g_after = snap(&g);
